@@ -399,8 +399,11 @@ class Evaluator:
             v = self._e(s.value, env, pc, res)
             if v[0] == "call" and len(s.targets) == 1 and isinstance(s.targets[0], ast.Name):
                 last = v[1][2] if v[1][0] == "attr" else (v[1][1] if v[1][0] == "sym" else "")
-                if last in ALLOCATORS:
+                if last in ALLOCATORS or (last in ("list", "dict", "set", "OrderedDict", "defaultdict", "deque") and not v[2]):
                     v = ("new", s.targets[0].id, v)
+            elif v in (("list", ()), ("dict", ())) and len(s.targets) == 1 and isinstance(s.targets[0], ast.Name):
+                # an empty container that will be filled by mutation keeps its identity (the variable name)
+                v = ("new", s.targets[0].id, v)
             env = dict(env)
             for t in s.targets:
                 self._bind(t, v, env, pc, res)
